@@ -4,6 +4,7 @@ import (
 	"fmt"
 	"os"
 	"path/filepath"
+	"regexp"
 	"strings"
 
 	"golang.org/x/tools/go/packages"
@@ -49,7 +50,41 @@ func overlayFiles() (map[string]string, error) {
 		m[filepath.Join(repoDir(), rel)] = p
 		return nil
 	})
-	return m, err
+	if err != nil {
+		return nil, err
+	}
+	// derived files: regenerated from the repository's current source on every run
+	dd := filepath.Join(verifDir(), "replays", ".derived")
+	os.MkdirAll(dd, 0755)
+	for _, d := range derived {
+		b, err := os.ReadFile(filepath.Join(repoDir(), d.src))
+		if err != nil {
+			continue // the harness that needs it will fail to compile -> inconclusive
+		}
+		txt := string(b)
+		for _, r := range d.repl {
+			txt = regexp.MustCompile(r[0]).ReplaceAllString(txt, r[1])
+		}
+		out := filepath.Join(dd, strings.ReplaceAll(d.virt, "/", "_"))
+		if err := os.WriteFile(out, []byte(txt), 0644); err != nil {
+			return nil, err
+		}
+		m[filepath.Join(repoDir(), d.virt)] = out
+	}
+	return m, nil
+}
+
+type derivedFile struct {
+	src, virt string
+	repl      [][2]string
+}
+
+// derived lists source files of the repository that are re-emitted under another name so
+// that code excluded by build constraints on this platform can be executed and replayed.
+var derived = []derivedFile{
+	{src: "metrics/lzcnt.go", virt: "metrics/zz_verif_lzcnt_portable.go", repl: [][2]string{
+		{`(?m)^//\s*\+build.*$`, ""}, {`(?m)^//go:build.*$`, ""}, {`func lzcnt\(`, "func zzLzcntPortable("},
+	}},
 }
 
 type loaded struct {
